@@ -312,6 +312,83 @@ impl<I, P, H> Store<I, P, H> {
     }
 }
 
+/// The heap position left vacant by an element that is being sifted up.
+///
+/// The element is written back into the vacant position when the `Hole` is
+/// dropped. This also happens while a panic of `Ord::cmp` unwinds, so that
+/// `heap` and `qp` are always left mutually consistent.
+pub(crate) struct Hole<'a> {
+    heap: &'a mut [Index],
+    qp: &'a mut [Position],
+    position: Position,
+    index: Index,
+}
+
+impl<'a> Hole<'a> {
+    /// Makes `position` the vacant position of the element `index`.
+    ///
+    /// # Safety
+    ///
+    /// `position` must be in bounds of `heap`, `index` in bounds of `qp`.
+    #[inline(always)]
+    pub unsafe fn new(
+        heap: &'a mut [Index],
+        qp: &'a mut [Position],
+        position: Position,
+        index: Index,
+    ) -> Self {
+        Hole {
+            heap,
+            qp,
+            position,
+            index,
+        }
+    }
+
+    /// The vacant position
+    #[inline(always)]
+    pub fn position(&self) -> Position {
+        self.position
+    }
+
+    /// The index of the element in `position`
+    ///
+    /// # Safety
+    ///
+    /// `position` must be in bounds of `heap` and must not be the vacant one.
+    #[inline(always)]
+    pub unsafe fn index_at(&self, position: Position) -> Index {
+        unsafe { *self.heap.get_unchecked(position.0) }
+    }
+
+    /// Moves the element in position `from` to the vacant position.
+    /// `from` becomes the vacant position.
+    ///
+    /// # Safety
+    ///
+    /// `from` must be in bounds of `heap` and must not be the vacant one.
+    #[inline(always)]
+    pub unsafe fn move_from(&mut self, from: Position) {
+        unsafe {
+            let index = *self.heap.get_unchecked(from.0);
+            *self.heap.get_unchecked_mut(self.position.0) = index;
+            *self.qp.get_unchecked_mut(index.0) = self.position;
+        }
+        self.position = from;
+    }
+}
+
+impl Drop for Hole<'_> {
+    #[inline(always)]
+    fn drop(&mut self) {
+        // SAFETY: guaranteed by the contracts of `new` and `move_from`
+        unsafe {
+            *self.heap.get_unchecked_mut(self.position.0) = self.index;
+            *self.qp.get_unchecked_mut(self.index.0) = self.position;
+        }
+    }
+}
+
 impl<I, P, H> Store<I, P, H>
 where
     P: Ord,
